@@ -265,6 +265,24 @@ fn filters_for(group: &Group) -> Vec<Expr> {
         }
     }
     simple.truncate(7);
+    // arithmetic comparisons over certainly bound numeric variables (precedence, every operator)
+    let nums: Vec<&&String> = cv.iter().filter(|x| kinds.get(**x) == Some(&VarKind::Num)).collect();
+    let mut arith: Vec<Expr> = Vec::new();
+    let op = |t: T| Box::new(Arith::Operand(t));
+    let n = |k: &str| T::Num(k.to_string());
+    if let Some(x) = nums.first() {
+        // (x + 1) * 2 > 4   /   x + 1 * 2 > 3 (precedence)   /   x - 1 = 0   /   x / 2 >= 1   /   6 / x != 3
+        arith.push(Expr::ArithCmp(Arith::Mul(Box::new(Arith::Add(op(v(x)), op(n("1")))), op(n("2"))), Cmp::Gt, Arith::Operand(n("4"))));
+        arith.push(Expr::ArithCmp(Arith::Add(op(v(x)), Box::new(Arith::Mul(op(n("1")), op(n("2"))))), Cmp::Gt, Arith::Operand(n("3"))));
+        arith.push(Expr::ArithCmp(Arith::Sub(op(v(x)), op(n("1"))), Cmp::Eq, Arith::Operand(n("0"))));
+        arith.push(Expr::ArithCmp(Arith::Div(op(v(x)), op(n("2"))), Cmp::Ge, Arith::Operand(n("1"))));
+        arith.push(Expr::ArithCmp(Arith::Div(op(n("6")), op(v(x))), Cmp::Ne, Arith::Operand(n("3"))));
+        if let Some(y) = nums.get(1) {
+            arith.push(Expr::ArithCmp(Arith::Add(op(v(x)), op(v(y))), Cmp::Le, Arith::Operand(n("3"))));
+            arith.push(Expr::ArithCmp(Arith::Operand(v(x)), Cmp::Lt, Arith::Mul(op(v(y)), op(n("2")))));
+            arith.push(Expr::ArithCmp(Arith::Sub(op(v(x)), op(v(y))), Cmp::Eq, Arith::Sub(op(v(y)), op(v(x)))));
+        }
+    }
     let mut out = simple.clone();
     if simple.len() >= 2 {
         out.push(Expr::And(Box::new(simple[0].clone()), Box::new(simple[1].clone())));
@@ -276,6 +294,11 @@ fn filters_for(group: &Group) -> Vec<Expr> {
     if let Some(f) = simple.first() {
         out.push(Expr::Not(Box::new(f.clone())));
     }
+    if let (Some(a), Some(f)) = (arith.first(), simple.first()) {
+        out.push(Expr::And(Box::new(a.clone()), Box::new(f.clone())));
+        out.push(Expr::Not(Box::new(a.clone())));
+    }
+    out.extend(arith);
     out
 }
 
